@@ -41,6 +41,7 @@ type xchan struct {
 	des      bool
 	deadline int64
 	fired    bool
+	onFire   func() // time.AfterFunc: run in a new goroutine when the timer fires
 }
 
 func newChan(n int) *xchan { return &xchan{cap: n} }
@@ -199,6 +200,10 @@ func (e *Engine) fireNextTimer() bool {
 	}
 	best.fired = true
 	e.TimersFired++
+	if best.onFire != nil {
+		best.onFire()
+		return true
+	}
 	if best.ctxDone {
 		best.closed = true
 	} else {
